@@ -18,6 +18,20 @@ def gen_cases(rng, tier):
         spec["kind"] = "loop"
         k += 1
         yield spec
+    # simulator back-end: training runs which fail before their first report (no result at all) or after a few reports
+    n = 12 if tier == "quick" else 200
+    k = 0
+    while k < n:
+        spec = loop.gen_spec(rng, tier)
+        if spec["backend"] != "sim":
+            continue
+        spec["sim"]["p_fail0"] = rng.choice([0.15, 0.3, 0.5])
+        spec["sim"]["p_failk"] = rng.choice([0.0, 0.15, 0.3])
+        spec["max_failures"] = rng.choice([0, 1, 2, 3, 10])
+        spec["inject"] = None
+        spec["kind"] = "loop"
+        k += 1
+        yield spec
 
 
 def run_impl(spec):
@@ -28,8 +42,8 @@ def run_impl(spec):
         # the loop-side clause "the scheduler is notified once per failure" is also what c01:end-notified-twice violates
         mon += [f for f in loop.monitor_c01(t) if f["signature"] == "c01:end-notified-twice"]
         hist = loop.histogram(t)
-        hist["kind:loop"] = 1
-        fails = sum(v for k, v in hist.items() if "on_trial_error" in k)
+        hist["kind:loop:" + spec["backend"]] = 1
+        fails = hist.get("call:sched.error", 0) + hist.get("polled:Failed", 0)
         return {"lines": lines, "driver": LOOP, "monitor": mon,
                 "meta": {"hist": hist, "nontrivial": fails > 0}}
     finally:
